@@ -10,6 +10,7 @@ import (
 	"net/http"
 	"os"
 	"path/filepath"
+	"sort"
 	"strings"
 
 	"github.com/getkin/kin-openapi/openapi3"
@@ -91,6 +92,14 @@ func (c *contract) docVerdictRequest(ex *simnet.Exchange) (verdict error, route 
 	route, params, err = c.router.FindRoute(r)
 	if err != nil {
 		return err, nil, nil, r, false
+	}
+	// query parameters documented as deepObject maps (name[key]=value with a schema for the values only):
+	// the validator cannot decode those (it knows deepObject for declared properties only), so they are
+	// judged here against the documented value schema and taken out of what the validator sees
+	restore, derr := judgeDeepObjectMaps(route, r)
+	defer restore()
+	if derr != nil {
+		return derr, route, params, r, true
 	}
 	in := &openapi3filter.RequestValidationInput{Request: r, PathParams: params, Route: route,
 		Options: &openapi3filter.Options{AuthenticationFunc: openapi3filter.NoopAuthenticationFunc, MultiError: false, SkipSettingDefaults: true}}
@@ -194,4 +203,119 @@ func registerMediaTypes(n any) {
 			registerMediaTypes(v)
 		}
 	}
+}
+
+
+// judgeDeepObjectMaps validates name[key]=value pairs of parameters documented with style deepObject and an
+// additionalProperties schema, removes them from the request and makes the parameter optional for the
+// validator call that follows (restore undoes that).
+func judgeDeepObjectMaps(route *routers.Route, r *http.Request) (restore func(), err error) {
+	var touched []*openapi3.Parameter
+	restore = func() {
+		for _, p := range touched {
+			p.Required = true
+		}
+	}
+	var ps openapi3.Parameters
+	if route.PathItem != nil {
+		ps = append(ps, route.PathItem.Parameters...)
+	}
+	ps = append(ps, route.Operation.Parameters...)
+	q := r.URL.Query()
+	changed := false
+	for _, pr := range ps {
+		p := pr.Value
+		if p == nil || p.In != "query" || p.Style != "deepObject" || p.Schema == nil || p.Schema.Value == nil {
+			continue
+		}
+		vs := p.Schema.Value.AdditionalProperties.Schema
+		if vs == nil || vs.Value == nil || len(p.Schema.Value.Properties) > 0 {
+			continue
+		}
+		found := 0
+		keys := make([]string, 0, len(q))
+		for k := range q {
+			keys = append(keys, k)
+		}
+		sort.Strings(keys)
+		for _, k := range keys {
+			vals := q[k]
+			if !strings.HasPrefix(k, p.Name+"[") || !strings.HasSuffix(k, "]") {
+				continue
+			}
+			found++
+			delete(q, k)
+			changed = true
+			if err == nil {
+				err = deepObjectValue(p.Name, k, vals, vs.Value)
+			}
+		}
+		if err == nil && p.Schema.Value.MinProps > uint64(found) {
+			err = fmt.Errorf("parameter %q in query has an error: minimum number of properties is %d", p.Name, p.Schema.Value.MinProps)
+		}
+		if err == nil && p.Schema.Value.MaxProps != nil && *p.Schema.Value.MaxProps < uint64(found) {
+			err = fmt.Errorf("parameter %q in query has an error: maximum number of properties is %d", p.Name, *p.Schema.Value.MaxProps)
+		}
+		if p.Required {
+			if found == 0 && err == nil {
+				err = fmt.Errorf("parameter %q in query has an error: value is required but missing", p.Name)
+			}
+			p.Required = false
+			touched = append(touched, p)
+		}
+	}
+	if changed {
+		r.URL.RawQuery = q.Encode()
+	}
+	return restore, err
+}
+
+func deepObjectValue(name, key string, vals []string, s *openapi3.Schema) error {
+	conv := func(txt string, s *openapi3.Schema) (any, error) {
+		switch {
+		case s.Type.Is("integer"), s.Type.Is("number"):
+			var f json.Number = json.Number(txt)
+			if _, err := f.Float64(); err != nil {
+				return nil, fmt.Errorf("parameter %q in query has an error: %s: value %q is not a number (type)", name, key, txt)
+			}
+			var v any
+			json.Unmarshal([]byte(txt), &v)
+			if v == nil {
+				fv, _ := f.Float64()
+				v = fv
+			}
+			return v, nil
+		case s.Type.Is("boolean"):
+			if txt != "true" && txt != "false" {
+				return nil, fmt.Errorf("parameter %q in query has an error: %s: value %q is not a boolean (type)", name, key, txt)
+			}
+			return txt == "true", nil
+		}
+		return txt, nil
+	}
+	if s.Type.Is("array") && s.Items != nil && s.Items.Value != nil {
+		arr := make([]any, 0, len(vals))
+		for _, t := range vals {
+			v, err := conv(t, s.Items.Value)
+			if err != nil {
+				return err
+			}
+			arr = append(arr, v)
+		}
+		if err := s.VisitJSON(arr); err != nil {
+			return fmt.Errorf("parameter %q in query has an error: %s: %w", name, key, err)
+		}
+		return nil
+	}
+	if len(vals) != 1 {
+		return fmt.Errorf("parameter %q in query has an error: %s occurs %d times", name, key, len(vals))
+	}
+	v, err := conv(vals[0], s)
+	if err != nil {
+		return err
+	}
+	if err := s.VisitJSON(v); err != nil {
+		return fmt.Errorf("parameter %q in query has an error: %s: %w", name, key, err)
+	}
+	return nil
 }
